@@ -18,6 +18,13 @@ def register(reg):
           "C13.read-only": "heap_unchanged()",
       },
       raises={"C13.read-only": "heap_unchanged()"})
+    # ---------------------------------------------------------------- key files carried over to a rebuilt sub-configuration
+    C("core:Config._take_keyfiles", params={"other": "any"}, returns="none",
+      modifies=["Config._Config__keyfile@*", "fresh", "ncalls"],
+      invariants={0: {"frame": "heap_unchanged('Config._Config__keyfile')"}},
+      ensures={"C03+C13+C06.only-key-file-slots-change": "heap_unchanged('Config._Config__keyfile')",
+               "C03.not-a-configuration-changes-nothing": "implies(not typeis(other, 'ref:Config'), heap_unchanged())"},
+      raises={}, noraise=True)
     C("support:is_value_defined", params={"config": "ref:Config", "key": "str"}, returns="bool", modifies=["fresh", "ncalls"],
       ensures={
           "C12.defined-means-not-marked-default": "implies(%s, result == (not has(config._default_value_keys, key)))" % NODOT,
